@@ -98,8 +98,10 @@ def run(ctx):
                             problems.append("security trailer not 16-byte aligned from the stub start")
                         if pad != tr - 24 - len(unpadded) or pad >= 16:
                             problems.append(f"pad_length {pad} is not the padding added ({tr - 24 - len(unpadded)})")
-                        (h_, b_, t_, s_) = auth.wrap_calls[-1]
                         want_body = unpadded + b"\x00" * ((-len(unpadded)) % 16)
+                        if len(auth.wrap_calls) != 1 + len(prior):
+                            problems.append(f"the security context sealed {len(auth.wrap_calls)} of {1 + len(prior)} authenticated requests")
+                        (h_, b_, t_, s_) = auth.wrap_calls[-1] if auth.wrap_calls else (b"", None, b"", None)
                         if len(auth.wrap_calls) != 1 + len(prior) or b_ != want_body or s_ != sign:
                             problems.append("the region handed to the security context is not exactly stub + padding (+ verification trailer)")
                         if h_ != wire[:24] or t_ != wire[tr:tr + 8]:
